@@ -261,7 +261,7 @@ class Version:
         return out
 
 
-def emit_version(v, ns, go_rows, b, t):
+def emit_version(v, ns, go_rows, b, t, accesses=(), scenarios=(), v6=False):
     b.append("namespace %s\n" % ns)
     t.append("namespace %s\n" % ns)
     for (name, is_union, packed, fields, _) in v.defs:
@@ -312,6 +312,25 @@ def emit_version(v, ns, go_rows, b, t):
     ms = [r["size"] for r in go_rows if r["mode"] == "mirror-size"]
     if ms:
         b.append("/-- `unsafe.Sizeof(state.State{})`: the Go mirror of `struct cali_tc_state`. -/\ndef stateMirrorSize : Nat := %d\n" % ms[0])
+    acc = sorted(set((a["field"] or "?", a["off"], a["bits"]) for a in accesses))
+    b.append("/-- Every load/store relative to the state pointer R9 found in REAL policy programs (built by the real\npolprog.Builder for single-match rules), with the member the builder's own annotation names. -/")
+    b.append("def builderAccesses : List (String × Nat × Nat) := [%s]\n" % ", ".join("(%s, %d, %d)" % (lean_str(f), o, n) for (f, o, n) in acc))
+    ms = []
+    for sc in scenarios:
+        key = (sc["kind"], sc["field"], sc["prefix"], tuple((a["off"], a["bits"]) for a in sc["acc"]), any(a["store"] for a in sc["acc"]))
+        if key not in ms:
+            ms.append(key)
+    for k in ms:
+        if k[4]:
+            die("a match wrote to the state: %r" % (k,))
+    b.append("/-- Per single-match rule: what the real builder's program reads for the match (deduplicated over\nnegation / placement). -/")
+    b.append("def builderMatches : List BuilderMatch := [")
+    b.append(",\n".join("  ⟨%s, %s, %d, [%s]⟩" % (lean_str(k[0]), lean_str(k[1]), k[2], ", ".join("(%d, %d)" % a for a in k[3])) for k in ms))
+    b.append("]\n")
+    t.append("/-- Every state access of the real policy programs lies inside the member it is annotated with. -/")
+    t.append("theorem builder_accesses_inside : builderAccesses.all (accessInside structs) = true := by decide +kernel\n")
+    t.append("/-- Every match reads exactly the bytes of the member its leg denotes (word k of an address at +4k). -/")
+    t.append("theorem builder_matches_ok : builderMatches.all (matchOk %s structs) = true := by decide +kernel\n" % ("true" if v6 else "false"))
     be = []
     for r in ROOTS:
         for pth, (_, _, isbe) in sorted(v.clang_paths(r).items()):
@@ -458,7 +477,8 @@ def go_dump():
 
 
 def main():
-    rows = go_dump()
+    dump = go_dump()
+    rows = dump["rows"]
     pp4, pp6 = polprog_rows()
     v4, v6 = Version(False), Version(True)
     for v in (v4, v6):
@@ -470,8 +490,10 @@ def main():
          "import CalicoVerif.Model.C13Table\nopen CalicoVerif.C13\n"]
     t = ["/- GENERATED by translate/c13/gen.py — the finite-table theorems over Gen/C13.lean (kept in a separate\nfile so that the model driver still builds, and can exhibit the failing row, when one of them fails). -/",
          "import CalicoVerif.Gen.C13\nopen CalicoVerif.C13\n"]
-    emit_version(v4, "CalicoVerif.C13.Gen.V4", [r for r in rows if r["ver"] == "4"] + pp4, b, t)
-    emit_version(v6, "CalicoVerif.C13.Gen.V6", [r for r in rows if r["ver"] == "6"] + pp6, b, t)
+    emit_version(v4, "CalicoVerif.C13.Gen.V4", [r for r in rows if r["ver"] == "4"] + pp4, b, t,
+                 dump["accesses"]["4"], [x for x in dump["scenarios"] if x["ver"] == "4"], False)
+    emit_version(v6, "CalicoVerif.C13.Gen.V6", [r for r in rows if r["ver"] == "6"] + pp6, b, t,
+                 dump["accesses"]["6"], [x for x in dump["scenarios"] if x["ver"] == "6"], True)
     os.makedirs(os.path.dirname(OUT), exist_ok=True)
     open(OUT, "w").write("\n".join(b))
     open(os.path.join(os.path.dirname(OUT), "C13Thm.lean"), "w").write("\n".join(t))
